@@ -141,7 +141,7 @@ def check_gmm(g, x, what, thr_count=None):
     return None
 
 
-def oracle(sc, trainer, switches=(True, True, True), steps=3, dask=False, floors_late=None):
+def oracle(sc, trainer, switches=(True, True, True), steps=3, dask=False, floors_late=None, alpha_arr=None):
     import dask.array as da
     from bob.learn.em import GMMMachine, KMeansMachine
 
@@ -173,7 +173,10 @@ def oracle(sc, trainer, switches=(True, True, True), steps=3, dask=False, floors
     if trainer == "ml":
         g = gen.mk_gmm(np.full(K, 1 / K), cent, np.ones((K, D)), max_fitting_steps=steps, convergence_threshold=None, update_means=um, update_variances=uv, update_weights=uw)
     else:
-        g = GMMMachine(K, trainer="map", ubm=ubm, max_fitting_steps=steps, convergence_threshold=None, update_means=um, update_variances=uv, update_weights=uw)
+        extra = {}
+        if alpha_arr is not None:  # fixed adaptation ratios, one per Gaussian (unequal), instead of the relevance factor
+            extra = dict(map_relevance_factor=None, map_alpha=np.random.default_rng(int(alpha_arr)).uniform(0.05, 0.95, K))
+        g = GMMMachine(K, trainer="map", ubm=ubm, max_fitting_steps=steps, convergence_threshold=None, update_means=um, update_variances=uv, update_weights=uw, **extra)
     if floors_late is not None:
         # the floors are raised on a machine that already has its variances: above some entries, below others
         rr = np.random.default_rng(int(floors_late))
@@ -206,10 +209,11 @@ def search(ctx):
         ctx.case(["s", trainer, sc["kind"], core.tolist(sc["x"]), sw, dask], nontrivial=True)
         steps = 1 + int(ctx.rng.integers(0, 3))
         late = int(ctx.rng.integers(0, 10**6)) if trainer in ("ml", "map") and ctx.rng.random() < 0.4 else None
-        f = oracle(sc, trainer, sw, steps=steps, dask=dask, floors_late=late)
+        alpha_arr = int(ctx.rng.integers(0, 10**6)) if trainer == "map" and ctx.rng.random() < 0.4 else None
+        f = oracle(sc, trainer, sw, steps=steps, dask=dask, floors_late=late, alpha_arr=alpha_arr)
         if f and f["sig"] not in seen:
             seen.add(f["sig"])
-            f["input"] = {**{k: sc[k] for k in ("kind", "K", "D", "x", "cent", "sizes")}, "trainer": trainer, "switches": list(sw), "steps": steps, "dask": dask, "floors_late": late}
+            f["input"] = {**{k: sc[k] for k in ("kind", "K", "D", "x", "cent", "sizes")}, "trainer": trainer, "switches": list(sw), "steps": steps, "dask": dask, "floors_late": late, "alpha_arr": alpha_arr}
             fails.append(f)
     for i in range(ctx.budget(6, 60)):
         f = ivector_oracle(ctx, i)
@@ -227,4 +231,4 @@ def replay(d):
         from props import c10
 
         return c10.replay_validity(sc)
-    return oracle(sc, sc["trainer"], tuple(sc["switches"]), sc["steps"], sc["dask"], sc.get("floors_late"))
+    return oracle(sc, sc["trainer"], tuple(sc["switches"]), sc["steps"], sc["dask"], sc.get("floors_late"), sc.get("alpha_arr"))
